@@ -214,6 +214,7 @@ func ExpandConfigPath(path, defaultPath string) (string, error) {
 // VerifyFileHash reads a file and verifies whether the SHA is correct
 // Returns an error if there is a problem
 func VerifyFileHash(oid, path string) error {
+	verifhook.Crash("verify.hash")
 	f, err := os.Open(path)
 	if err != nil {
 		return err
